@@ -137,6 +137,20 @@ func buildSerState(rng *rand.Rand, kind string, allowEmpty bool) (*serState, err
 			if rng.IntN(3) == 0 {
 				s.idx.Flush()
 			}
+			if (kind == "ivf" || kind == "pq" || kind == "ivfpq") && rng.IntN(4) == 0 {
+				// Train again AFTER adds (a reachable train/add history): centroids / codebooks move, stored entries stay
+				nT := 40 + rng.IntN(40)
+				if kind != "ivf" {
+					nT += 1 << s.nbits
+				}
+				tr := make([]comet.VectorNode, nT)
+				for i := range tr {
+					tr[i] = *comet.NewVectorNodeWithID(uint32(i+1), vg.fresh())
+				}
+				if err := s.idx.Train(tr); err == nil {
+					shape = 6 // marks "retrained after adds" in the description
+				}
+			}
 		}
 		var qs [][]float32
 		for i := 0; i < 4; i++ {
